@@ -10,6 +10,9 @@ from .core.effects import Effects
 from .c02 import exception_class
 
 RULES = {
+    "C05.6": "a block is never both sealed and active (= C04.1): once the writer has appended its current block to the reader chain, no path returns before the successor block is "
+             "installed. A block that is in the sealed chain and still the active tail is read twice - once as a chain block, once through the tail snapshot - so its unconsumed "
+             "entries are delivered twice",
     "C05.1": "cursor read-modify-write under one guard (RMW): for every checkpoint-guarded store to a cursor field of ColReaderInfo through a write-guard local g, no load of "
              "ColReaderInfo state in the backward slice of the stored value goes through another write-guard local of the same lock (another acquisition): otherwise two consuming "
              "readers can both read the old position, both deliver the entry and both commit",
@@ -377,6 +380,8 @@ def run(ctx):
     check_read_next_commit(ctx, facts, rid="C05.4")
     check_writer_types(ctx, facts)
     check_writer_guards_held(ctx, facts)
+    from .c04 import check_rotation
+    check_rotation(ctx, facts, rid="C05.6")
     ctx.assume("schedules are not enumerated: the check decides the absence of the atomicity-violation shapes that make duplicate delivery possible; ordering between producers, "
                "the stale pre-lock writer snapshot in the batch path and fairness are NOT decided")
     ctx.assume("C05.1 treats distinct MIR locals as distinct acquisitions; a value carried across loop iterations under re-acquisitions of the same local is not tracked")
